@@ -822,6 +822,25 @@ func (ev *cenv) call(e *CExpr) *Val {
 				return evs[k].Res.F[ev.constInt(args[2])]
 			}
 			return evs[k].Res
+		case "sameElems":
+			// every element in the slice's window [off, off+cap) of its backing array is as in the pre-state
+			x := ev.eval(args[0])
+			if x.F == nil || len(x.F) != 4 || ev.oldHeap == nil {
+				ev.fail("sameElems(slice) needs a slice and a pre-state")
+			}
+			et := types.Unalias(x.T).Underlying().(*types.Slice).Elem()
+			var ls []leafInfo
+			E.leafPaths(et, "", &ls)
+			var cs []string
+			for _, l := range ls {
+				comp := compName(elemsRoot(et), l.Path)
+				cur := E.heapArr(ev.heap, comp, l.Sort, true)
+				old := E.heapArr(ev.oldHeap, comp, l.Sort, true)
+				j := E.freshName("j")
+				cs = append(cs, fmt.Sprintf("(forall ((%s Int)) (! (=> (and (<= %s %s) (< %s %s)) (= (select (select %s %s) %s) (select (select %s %s) %s))) :pattern ((select (select %s %s) %s))))",
+					j, x.F[1].S, j, j, add(x.F[1].S, x.F[3].S), cur, x.F[0].S, j, old, x.F[0].S, j, cur, x.F[0].S, j))
+			}
+			return boolVal(and(cs...))
 		case "ghost":
 			return ev.loadLV(ev.ghostLV(args))
 		case "cast":
